@@ -368,7 +368,60 @@ def r4_restriction_argument(ctx, chk, rule="C02.4"):
         chk.ok(rule, g.where(L.node), "every Player-1 state of the whole list is restricted by its own entry %s[idx]" % g.params[1])
 
 
+def r5_no_stale_transition_cache(ctx, chk, rule="C02.5"):
+    """A node field that the constructor computes from the transition list (a cached sum, a count, a self-loop mass) describes
+    the *input* game; the conditioned game is obtained by rewriting next_states.  Such a field read by the solver after the
+    conditioning is stale unless every function that rewrites next_states refreshes it."""
+    from .C04 import next_states_writers
+    roles = K.role_classes(ctx)
+    node_classes = set()
+    for c in roles.values():
+        node_classes.update(ctx.prog.mro(c))
+    derived = {}       # field -> (func, node)
+    for cn in sorted(node_classes):
+        cls = ctx.prog.classes.get(cn)
+        init = cls.methods.get("__init__") if cls else None
+        if init is None:
+            continue
+        tainted = {"next_states"}
+        for _ in range(4):
+            for st in walk_no_nested_defs(init.node):
+                if isinstance(st, (ast.Assign, ast.AugAssign)):
+                    val = st.value
+                    names = {n.id for n in ast.walk(val) if isinstance(n, ast.Name)} | {n.attr for n in ast.walk(val) if isinstance(n, ast.Attribute) and attr_path(n) == "self.next_states"}
+                    if names & tainted:
+                        for t in (st.targets if isinstance(st, ast.Assign) else [st.target]):
+                            if isinstance(t, ast.Name):
+                                tainted.add(t.id)
+                            elif isinstance(t, ast.Attribute) and attr_path(t) and attr_path(t).startswith("self.") and t.attr != "next_states":
+                                derived.setdefault(t.attr, (init, st))
+    if not derived:
+        chk.ok(rule, "tad.py", "no node field is computed from the transition list at construction: nothing can go stale when next_states is rewritten")
+        return
+    ws = next_states_writers(ctx)
+    for field, (init, st) in sorted(derived.items()):
+        readers = []
+        for g in ctx.prog.all_funcs(("tad.py",)):
+            if g.name == "__init__":
+                continue
+            for n in walk_no_nested_defs(g.node):
+                if isinstance(n, ast.Attribute) and n.attr == field and isinstance(n.ctx, ast.Load):
+                    readers.append((g, n))
+        if not readers:
+            continue
+        stale = [w for w in ws if not any(isinstance(n, ast.Attribute) and n.attr == field and isinstance(n.ctx, ast.Store) for n in walk_no_nested_defs(w.node))]
+        if stale:
+            g, n = readers[0]
+            chk.violation(rule, g.where(n), "`self.%s` is computed from the transition list in %s (`%s`) and read here, but %s rewrite(s) next_states without refreshing it: "
+                          "after conditioning the cached value describes the unpruned game" % (field, init.short, norm_stmt(st), ", ".join(sorted(w.short for w in stale))),
+                          expected="no cached function of next_states, or a refresh in every function that rewrites next_states", found=norm_stmt(st),
+                          construct="stale cache %s" % field)
+        else:
+            chk.ok(rule, init.where(st), "field %s is derived from next_states and refreshed by every writer of next_states" % field)
+
+
 def run(ctx, chk):
+    r5_no_stale_transition_cache(ctx, chk)
     r1_pipeline(ctx, chk)
     r2_kernels(ctx, chk)
     r3_sweep(ctx, chk)
